@@ -10,11 +10,11 @@ demo=$(ls $sd/demo_test.go $sd/demo_main.go 2>/dev/null | head -1)
 rundemo() { # $1 = label
   if [[ "$demo" == *_test.go ]]; then
     cp "$demo" "$d/w/$pkgdir/zz_seed_demo_test.go"
-    (cd "$d/w" && CGO_ENABLED=1 go test -vet=off -count=1 ${SEED_RACE:+-race} -run "${SEED_RUN:-.}" ./$pkgdir/ >"$d/demo_$1.log" 2>&1); rc=$?
+    (cd "$d/w" && CGO_ENABLED=1 go test -vet=off -count=1 ${SEED_RACE:+-race} ${SEED_TAGS:+-tags $SEED_TAGS} -run "${SEED_RUN:-.}" ./$pkgdir/ >"$d/demo_$1.log" 2>&1); rc=$?
     rm -f "$d/w/$pkgdir/zz_seed_demo_test.go"
   else
     mkdir -p "$d/m"; cp "$demo" "$d/m/main.go"; printf 'module demo\ngo 1.23\nrequire github.com/google/safehtml v0.0.0\nreplace github.com/google/safehtml => %s\n' "$d/w" > "$d/m/go.mod"; cp /repo/go.sum "$d/m/"
-    (cd "$d/m" && CGO_ENABLED=1 go run ${SEED_RACE:+-race} . >"$d/demo_$1.log" 2>&1); rc=$?
+    (cd "$d/m" && CGO_ENABLED=1 go run ${SEED_RACE:+-race} ${SEED_TAGS:+-tags $SEED_TAGS} . >"$d/demo_$1.log" 2>&1); rc=$?
   fi
   echo "demo[$1] exit=$rc"; tail -3 "$d/demo_$1.log" | cut -c1-200
 }
